@@ -905,7 +905,7 @@ func getTopologyHintsForDevice(devType string, major, minor int64, allowPathList
 func (c *container) GetAffinity() ([]*Affinity, error) {
 	pod, ok := c.GetPod()
 	if !ok {
-		log.Error("internal error: can't find Pod for container %s", c.PrettyName())
+		return nil, cacheError("can't find pod %s for container %s", c.GetPodID(), c.PrettyName())
 	}
 	affinity, err := pod.GetContainerAffinity(c.GetName())
 	if err != nil {
